@@ -18,6 +18,8 @@ class T(models.Model):
     class Meta:
         app_label = "vp_djapp"
         db_table = "t"
+        indexes = [models.Index(fields=["s"], condition=models.Q(a__gt=0), name="ix_dj_t_s_when_a"),
+                   models.Index(fields=["b"], name="ix_dj_t_b")]
 
 
 class Region(models.Model):
@@ -75,12 +77,14 @@ class Post(models.Model):
     rating = models.IntegerField()
     author = models.ForeignKey(Author, null=True, on_delete=models.SET_NULL,
                                related_name="posts")
-    home = models.ForeignKey(Country, null=True, on_delete=models.SET_NULL, related_name="+")
+    home = models.ForeignKey(Country, on_delete=models.CASCADE, related_name="+")   # NOT NULL
     tags = models.ManyToManyField(Tag, related_name="posts", db_table="post_tags")
 
     class Meta:
         app_label = "vp_djapp"
         db_table = "post"
+        indexes = [models.Index(fields=["title"], condition=models.Q(rating__gt=0),
+                                name="ix_dj_post_title_rated")]
 
 
 class Comment(models.Model):
